@@ -14,7 +14,7 @@ pub fn items_s(p: &Paragraph) -> String {
         .join(",")
 }
 pub fn doc_items_s(d: &Deb822) -> String {
-    d.paragraphs().map(|p| items_s(&p)).collect::<Vec<_>>().join(";")
+    d.paragraphs().map(|p| format!("[{}]", items_s(&p))).collect::<Vec<_>>().join("")
 }
 
 pub fn deb822_parse(fs: &[&str]) -> String {
